@@ -48,8 +48,18 @@ def bounds(tier):
             + (" (first 8 templates)" if tier == "quick" else "")}
 
 
+# accepted texts that no generation skeleton has (they cannot all be generated): parse / print level only
+EXTRA_TEMPLATES = [
+    ("endgroup-without-descriptor", "{[][$]CC[$]; [H][]}|gauss(100, 10)|", "molecule"),
+    ("endgroup-without-descriptor-before-terminal", "C{[$][$]CC[$]; O[$]}|gauss(100, 10)|C", "molecule"),
+    ("endgroups-with-and-without-descriptor", "{[][<]CC[>]; [H], [<]O[]}|gauss(100, 10)|", "molecule"),
+    ("uniform-block-in-system", "CC{[>][<]CC[>][<]}|uniform(500, 600)|O.|50%|CCO.|50%|", "system"),
+]
+
+
 def _templates(tier):
     out = [(s["name"], s["text"], "molecule") for s in gendrive.SKELETONS]
+    out += EXTRA_TEMPLATES
     for i, t in enumerate(corpus.test_strings("test_system.py")):
         out.append((f"test_system[{i}]", t, "system"))
     for i, t in enumerate(corpus.test_strings("test_stochastic.py")):
@@ -78,6 +88,9 @@ def cases(tier):
     for i, (name, text, level) in enumerate(tl[:nh] if tier == "quick" else tl):
         for hp in hole_positions(text):
             out.append({"name": f"blank/{name}/@{hp}", "kind": "template", "text": text, "level": level, "hole": ("blank", hp)})
+        for hp in bondsym_positions(text):
+            for sym in ("=", "#"):
+                out.append({"name": f"bondsym/{name}/@{hp}{sym}", "kind": "template", "text": text, "level": level, "hole": ("bondsym", hp, sym)})
         nnum = len([m for k, piece in enumerate(text.split("|")) if k % 2 == 1 for m in NUM_RE.finditer(piece)])
         for k in range(nnum):
             for fmt in NUM_FORMATS:
@@ -289,16 +302,41 @@ def hole_positions(text):
     return sorted(p for p in pos if 0 <= p <= len(text))
 
 
+def bondsym_positions(text):
+    """positions where a token that follows a stochastic object starts, and positions directly in front of a '{' that follows
+    a token character: a bond symbol written there is taken over by the descriptor the parser adds"""
+    pos = []
+    inside = False
+    last = ""      # last non-blank character outside |...|
+    for i, ch in enumerate(text):
+        if ch == "|":
+            inside = not inside
+            if not inside:
+                last = "|"
+            continue
+        if inside or ch in " \t":
+            continue
+        if last in ("}", "|") and (ch.isalpha() or ch == "[") and ch != "{" and not text.startswith(".|", i):
+            pos.append(i)
+        if ch == "{" and last and (last.isalnum() or last in ")]"):
+            pos.append(i)
+        last = ch
+    return pos
+
+
 def templatize(c, text, hole=None):
     """numbers inside |...| become numeral atoms with fresh symbolic values of the same sign pattern;
     hole = ("blank", position): an optional blank is inserted there;
-    hole = ("numfmt", k, fmt): the k-th number is written as an integer literal / with a trailing dot"""
+    hole = ("numfmt", k, fmt): the k-th number is written as an integer literal / with a trailing dot;
+    hole = ("bondsym", position, symbol): a bond symbol is written in front of a token that follows a stochastic object / in
+    front of a stochastic object that follows a token (most such texts are rejected; an accepted one must round-trip)"""
     parts = []
     n = 0
     numidx = -1
     pieces = text.split("|")
     pos = 0
-    blank_at = hole[1] if hole and hole[0] == "blank" else None
+    blank_at = hole[1] if hole and hole[0] in ("blank", "bondsym") else None
+    inserted = hole[2] if hole and hole[0] == "bondsym" else " "
     for k, piece in enumerate(pieces):
         inside = k % 2 == 1
         subs = [piece]
@@ -308,7 +346,7 @@ def templatize(c, text, hole=None):
             blank_at = None
         for sub in subs:
             if sub is None:
-                parts.append(" ")
+                parts.append(inserted)
                 continue
             if not inside:
                 parts.append(sub)
@@ -349,7 +387,7 @@ def templatize(c, text, hole=None):
                 j = m.end()
             parts.append(sub[j:])
             if fam == "uniform" and len(vals) == 2:
-                c.add((vals[0] < vals[1]).e)
+                c.add((vals[0] <= vals[1]).e)  # equal bounds are accepted and printed back
             if fam == "schulz_zimm" and len(vals) == 2:
                 c.add((vals[0] > vals[1]).e)
             if fam == "flory_schulz" and len(vals) == 1 and core.is_sym(vals[0]):
